@@ -59,6 +59,12 @@ THEOREMS = [
     "Scenic.C12.runMonitors_endScen_own",
     "Scenic.C12.terminate_after_scenario_ended",
     "Scenic.C12.terminate_simulation_when_last",
+    "Scenic.C12.stopScen_stops",
+    "Scenic.C12.stopScen_only_stops",
+    "Scenic.C12.stopScen_settled",
+    "Scenic.C12.stopped_monitors_silent",
+    "Scenic.C12.monitors_phase_after_stop_silent_partial",
+    "Scenic.C12.initSt_settled",
     "Scenic.C12.subscenario_terminate_when",
     "Scenic.C12.subscenario_monitor_terminate",
 ]
@@ -428,10 +434,31 @@ def runtime():
             m._c12 = (self._c12_id, j)
         return orig_start(self)
 
+    def post_stop(sc, depth=0):
+        """(S5) the statement of `stopScen_stops` / `stopScen_settled` on the real objects: after `_stop` the scenario
+        is not running, has no monitors and no compose iterator, and nothing listed below it is alive."""
+        if sc._isRunning:
+            return "running"
+        if sc._monitors:
+            return "monitors"
+        if sc._runningIterator is not None:
+            return "iterator"
+        if depth < 12:
+            for sub in sc._subScenarios:
+                b = post_stop(sub, depth + 1)
+                if b:
+                    return "sub-" + b.replace("sub-", "")
+        return None
+
     def _stop(self, reason, quiet=False):
         if not quiet:
             rt.EV.append(f"stop:{getattr(self, '_c12_id', '?')}")
-        return orig_stop(self, reason, quiet=quiet)
+        r = orig_stop(self, reason, quiet=quiet)
+        if not quiet:
+            b = post_stop(self)
+            if b:
+                rt.EV.append(f"poststop:{getattr(self, '_c12_id', '?')}:{b}")
+        return r
 
     DynamicScenario._start = _start
     DynamicScenario._stop = _stop
@@ -1119,7 +1146,13 @@ def run(ctx):
         closed_run, nrand = closed, 600
     else:
         core = rng.sample(core, min(len(core), 110))
-        closed_run = [c for c in closed if c[0].startswith(("subscenario", "terminate-after-scenario"))]
+        # unchanged fingerprints: a seeded sample of <= 6 cases of every sub-scenario construct (every case when a
+        # fingerprint changed or a template was lost, see above) so that the guaranteed minimum fits 2-3 workers
+        byname = {}
+        for c in closed:
+            if c[0].startswith(("subscenario", "terminate-after-scenario")):
+                byname.setdefault(c[0], []).append(c)
+        closed_run = [c for cs in byname.values() for c in (cs if len(cs) <= 6 else rng.sample(cs, 6))]
         closed_run += [c for c in closed if c[0] == "seconds-float-rounding"][:2]
         rest = [c for c in closed if c not in closed_run]
         closed_run += rng.sample(rest, min(len(rest), 110))
@@ -1145,7 +1178,7 @@ def run(ctx):
     t0 = time.time()
     # quick tier: time box (a changed fingerprint / lost template doubles it and runs every closed-form case first)
     # thorough tier: every closed-form and enumerated program, then seeded random programs until 15 minutes have passed
-    deadline = ctx.t0 + 900 if ctx.tier == "thorough" else ctx.t0 + (270 if escal else 120)
+    deadline = ctx.t0 + 900 if ctx.tier == "thorough" else ctx.t0 + (270 if escal else 110)
     reals = run_many(ctx, [j[1] for j in jobs], workers, deadline=deadline, minimum=minimum)
     if len(reals) < len(jobs):
         ctx.notes.append(f"time box: {len(reals)} of {len(jobs)} planned programs were run")
@@ -1189,6 +1222,13 @@ def run(ctx):
             found |= ctx.violation("rejected", "the simulation was rejected although the program has no requirement that "
                                    f"can fail: {';'.join(evs[-8:])}", rep)
             continue
+        # (S5) post-condition of `_stop` (theorems stopScen_stops / stopScen_settled) on the real scenario objects
+        ps = [e for e in evs if e.startswith("poststop:")]
+        if ps:
+            found |= ctx.violation(f"stop-postcondition:{ps[0].split(':', 2)[2]}",
+                                   f"after DynamicScenario._stop of scenario {ps[0].split(':')[1]} something is left alive "
+                                   f"({ps[0].split(':', 2)[2]}): {';'.join(evs[max(0, evs.index(ps[0]) - 6):evs.index(ps[0]) + 2])}", rep)
+            evs = [e for e in evs if not e.startswith("poststop:")]
         # (S4) nothing runs after the top-level scenario has stopped
         bad = after_top_stop(evs)
         if bad is not None:
